@@ -1,7 +1,7 @@
 """C09 — message calls are atomic and see the right context: the SEVM-vs-reference-EVM comparison on call-tree scenarios."""
 ID = "C09"
 EXTRACTORS = []
-LEAN_MODULES = ["HalmosVerif.Props.C09"]
+LEAN_MODULES = ["HalmosVerif.Props.C09", "HalmosVerif.Props.C09Core"]
 RULE = ("call trees up to depth 4 over a pool of generated callee contracts (each reporting CALLER/CALLVALUE/ADDRESS/ORIGIN/"
         "SELFBALANCE/arguments, writing storage/transient storage, logging, ending in return/revert/invalid/out-of-bounds), "
         "every call kind (CALL/STATICCALL/DELEGATECALL/CALLCODE/CREATE), concrete and symbolic values and arguments; the real "
